@@ -43,6 +43,8 @@ mod behaviour;
 #[cfg(feature = "tokio")]
 pub use crate::behaviour::tokio;
 pub use crate::behaviour::{Behaviour, Event};
+#[cfg(libp2p_verif)]
+pub use crate::behaviour::verif;
 
 /// The DNS service name for all libp2p peers used to query for addresses.
 const SERVICE_NAME: &[u8] = b"_p2p._udp.local";
